@@ -34,8 +34,7 @@ def run(ck, pid, timeout_mix, n_quick, n_thorough, title_rule):
         bad = "harness: " + il[:200] if il.startswith(("PANIC", "CRASH")) else L.read_statement(ops, res)
         if bad:
             nf += 1
-            if nf <= 3:
-                ck.fail("life-history", line, bad, impl=il[:600], model=ml[:600])
+            ck.fail("life-history", line, bad, impl=il[:600], model=ml[:600])
         elif il != ml:
             ck.tie_broken("history results differ from the model", line[:800], il[:400], ml[:400])
     ck.extra["failing_inputs_total"] = nf
